@@ -259,6 +259,27 @@ impl Oracle for C10Oracle {
             match st.res {
                 Ok(_) => {
                     self.commits_in_link += 1;
+                    // committing a migration hands its range to the migration's destination node
+                    if let (Some(meta), Some(cl)) = (slot_range.tag.meta(), st.post.clusters.get(name)) {
+                        for (a, b) in &slot_range.range_list {
+                            for probe in [*a, *b] {
+                                let owner = cl.nodes.iter().find(|n| {
+                                    n.is_master()
+                                        && n.slots.iter().any(|s| matches!(s.tag, VTag::None) && s.range_list.iter().any(|(x, y)| probe >= *x && probe <= *y))
+                                });
+                                ensure!(
+                                    owner.map(|n| n.address.as_str()) == Some(meta.dst_node_address.as_str()),
+                                    "C10:commit-moved-slots-to-wrong-node",
+                                    "commit of migration {:?} (destination {}@{}) succeeded, but slot {} is now stable on {:?}",
+                                    slot_range.range_list,
+                                    meta.dst_node_address,
+                                    meta.dst_proxy_address,
+                                    probe,
+                                    owner.map(|n| n.address.clone())
+                                );
+                            }
+                        }
+                    }
                     ensure!(
                         after + 1 == before,
                         "C10:commit-progress",
